@@ -103,9 +103,11 @@ def run(ns, via_repo, tier):
                 sh(["git", "-C", "/repo", "checkout", "--", "."])
             else:
                 drop(wt)
-        results[n] = {"property": meta["property"], "via": "repo" if via_repo else "worktree", "tier": tier,
-                      "checks": rec, "caught": any(v["violation"] for v in rec.values()), "wall_s": round(time.time() - t0, 1)}
-        print(n, json.dumps(results[n])[:600], flush=True)
+        entry = {"property": meta["property"], "via": "repo" if via_repo else "worktree", "tier": tier,
+                 "checks": rec, "caught": any(v["violation"] for v in rec.values()), "wall_s": round(time.time() - t0, 1)}
+        print(n, json.dumps(entry)[:600], flush=True)
+        results = json.load(open(path)) if os.path.exists(path) else {}     # merge with concurrent runners
+        results[n] = entry
         json.dump(results, open(path, "w"), indent=1, sort_keys=True)
 
 
